@@ -116,6 +116,8 @@ def _gen_traces(tier, out_dir, sd):
 def spec_level(tier):
     """Exhaustive TLC run of the broker design spec (if present)."""
     cfg = "Broker_MC_%s.cfg" % tier
+    if os.environ.get("VERIF_SKIP_MC"):
+        return None
     from vlib import SPEC
     if not os.path.exists(os.path.join(SPEC, "Broker_MC.tla")) or not os.path.exists(os.path.join(SPEC, cfg)):
         return None
@@ -141,6 +143,7 @@ def run_family(tier):
     verdicts = validate_shards("BrokerTrace.tla", "BrokerTrace.cfg", shards, jobs=12 if tier == "quick" else 14,
                                timeout=600 if tier == "quick" else 3400)
     viols = []
+    divs = []
     events = 0
     for v in verdicts:
         events += v["n"]
@@ -149,6 +152,14 @@ def run_family(tier):
         for x in v["viol"]:
             tf, ln = locate(index, v["shard"], x["line"])
             viols.append({"mon": x["mon"], "trace": tf, "line": ln})
+        for x in v.get("div", []):
+            tf, ln = locate(index, v["shard"], x["line"])
+            divs.append({"mon": x["mon"], "trace": tf, "line": ln})
+    div_detail = []
+    for dv in divs[:200]:
+        e = json.loads(open(dv["trace"]).read().splitlines()[dv["line"] - 1])
+        div_detail.append({"mon": dv["mon"], "trace": os.path.basename(dv["trace"]), "line": dv["line"],
+                           "op": e["op"], "args": e["args"], "res": e["res"]})
     with ProcessPoolExecutor(max_workers=12) as ex:
         feats = list(ex.map(_features, files, chunksize=8))
     # attach event info + replay material to violations (bounded)
@@ -174,6 +185,8 @@ def run_family(tier):
         "tier": tier, "seed": sd, "wall_s": time.time() - t0,
         "traces": len(files), "events": events,
         "violations": detailed[:400], "violation_count": len(detailed),
+        "divergences": div_detail, "divergence_count": len(divs),
+        "divergent_traces": len({d["trace"] for d in divs}),
         "features": [{"sig": f["sig"], "flags": f["flags"], "n": f["n"]} for f in feats],
         "samples": [{"trace": os.path.basename(f["path"]), "ops": f["ops"]} for f in feats[:3]],
         "mc": mc,
